@@ -34,6 +34,12 @@ type Inner2 struct {
 	Y string
 }
 
+// InnerB has exactly the shape of Inner (pointers to them are convertible).
+type InnerB struct {
+	X int
+	Y string
+}
+
 type IDs []int
 
 type Namer interface{ Name() string }
@@ -68,6 +74,11 @@ var Types = []FieldType{
 	{"siface", "[]interface{}", "slice", true, false},
 	{"sInner", "[]Inner", "slice", false, false},
 	{"spInner", "[]*Inner", "slice", false, false},
+	{"spInnerB", "[]*InnerB", "slice", false, false},
+	{"pInnerB", "*InnerB", "pointer", false, false},
+	{"ssInner", "[][]Inner", "slice", false, false},
+	{"smapInner", "[]map[string]Inner", "slice", false, false},
+	{"ssextItem", "[][]ext.Item", "slice", false, true},
 	{"sextItem", "[]ext.Item", "slice", false, true},
 	{"IDs", "IDs", "named-slice", false, false},
 	{"mapsi", "map[string]int", "map", false, false},
